@@ -11,8 +11,9 @@ Theorem case_meets_spec ss inp :
   prop_case inp (run_case inp) = 0.
 Proof. intros Hwf Hcl. unfold prop_case, run_case. apply (model_meets_spec ss); assumption. Qed.
 
-Theorem sig_requires_model inp obs : finding_sig inp obs <> 0 -> obs = run_case inp.
-Proof. unfold finding_sig, run_case. apply finding_code_requires_model. Qed.
+Theorem sig_requires_model inp obs :
+  finding_sig inp obs <> 0 -> obs = run_case inp /\ prop_case inp obs <> 0.
+Proof. unfold finding_sig, run_case, prop_case. apply finding_code_requires_model. Qed.
 
 Theorem case_explained inp :
   prop_case inp (run_case inp) = 0 \/ finding_sig inp (run_case inp) <> 0.
@@ -20,20 +21,24 @@ Proof. unfold prop_case, finding_sig, run_case. apply model_explained. Qed.
 
 (* the built-in defaults as the harness reads them from pkg/util/sloconfig (wire prefix of every case) *)
 Definition dflt_wire : list Z :=
-  [5; 1; 3;19; 1;0; 1;65; 0; 1;-1; 1;70; 0;0;0;0;0;0;0;0;0;0;0; 1;-3; 0;0;
-      1; 3;6; 2;2;2;2;2;2;
-      1; 3;5; 1;-5; 1;1000; 1;300; 1;-1; 1;50;
-      1; 3;8; 0;0;0;0;0; 5;0; 0; 7;0;
-      0; 4;0].
+  [5; 1;-1; 3;19; 1;0; 1;65; 0; 1;-1; 1;70; 0;0;0;0;0;0;0;0;0;0;0; 1;-3; 0;0;
+      1;-1; 3;6; 2;2;2;2;2;2;
+      1;-1; 3;5; 1;-5; 1;1000; 1;300; 1;-1; 1;50;
+      1;7; 3;8; 0;0;0;0;0; 5;0; 0; 7;0;
+      0;-1; 4;0].
 
 Definition absent5 : list Z := [5; 0;0; 0;0; 0;0; 0;0; 0;0].
 
+(* section [j] of what node [n] has been delivered after one operation *)
+Definition sec_of (n j : nat) (o : list slo) : cfg :=
+  match nth n o None with Some cs => nth j cs (Obj None) | None => Obj None end.
+
 (* ---------- a clean, non-trivial history: value, then a malformed section, then absent ---------- *)
 Definition example_clean : list Z :=
-  dflt_wire ++ [2; 1;0;0; 1;0;1] ++ [3;
+  dflt_wire ++ [2; 1;1;0;0; 0;0;0;  1;1;0;1; 0;0;0] ++ [0; 3;
     (* Create: system-config = cluster {bandwidth 1000}, entry k0=v0 {minFree 200, bandwidth 2000} *)
     0; 5; 0;0; 0;0; 0;0;
-          3;0; 3;8; 0;0;0;0;0; 5;0; 0; 7;1000;
+          3;0; 0;0; 3;8; 0;0;0;0;0; 5;0; 0; 7;1000;
                1; 1;1; 0;0;1;0; 3;8; 1;200; 0;0;0;0; 5;0; 0; 7;2000;
           0;0;
     (* Update: system-config does not parse *)
@@ -52,17 +57,49 @@ Proof. vm_compute. auto. Qed.
    malformed update changes nothing; the last update gives the defaults *)
 Example example_clean_system_values :
   map (map (fun c => (lookup [0] c, lookup [7] c)))
-      (map (fun o => [nth 3 o (Obj None); nth 8 o (Obj None)]) (run faithful (decode example_clean)))
+      (map (fun o => [sec_of 0 3 o; sec_of 1 3 o]) (run faithful (decode example_clean)))
   = [ [(Some 200, Some 2000); (None, Some 1000)];
       [(Some 200, Some 2000); (None, Some 1000)];
       [(None, Some 0); (None, Some 0)] ].
 Proof. vm_compute. reflexivity. Qed.
 
+(* ---------- a strict (trigger-driven) history with node events, a restart, framing and annotations ----------
+   nodes: node0 k0=v0, bandwidth annotation 5000; node1 k0=v1, annotation unreadable
+   ops:   start; Create cpu-burst {cluster percent 700; entry k0=v0 {percent 900}};
+          Update cpu-burst = another document followed by a stray "}" (unparsable: keeps the old one);
+          node1 relabelled k0=v0; NodeSLO 0 overwritten by a third party; restart *)
+Definition burst (v : Z) : list Z := [3;5; 0; 1;v; 0;0;0].
+Definition example_events : list Z :=
+  dflt_wire ++ [2; 1;1;0;0; 1;5000;1;  1;1;0;1; 2;0;0] ++ [1; 6;
+    7;
+    0; 5; 0;0; 0;0; 3;0; 0;0] ++ burst 700 ++ [1; 1;1; 0;0;1;0] ++ burst 900 ++ [0;0; 0;0;
+    1; 5; 0;0; 0;0; 3;0; 0; 2;1;4] ++ burst 100 ++ [0; 0;0; 0;0;
+    8; 1; 1;1;0;0; 2;0;0;
+    11; 0; 3;
+    7].
+
+Example example_events_ok :
+  wf_input koord_schemas (decode example_events) = true
+  /\ clean_input (decode example_events) = true
+  /\ in_strict (decode example_events) = true /\ wf_strict (decode example_events) = true
+  /\ nontrivial_case example_events = true
+  /\ prop_case example_events (run_case example_events) = 0
+  /\ (* cpuBurstPercent of node0 / node1 after every event: the stray brace keeps 900/700; the relabelled
+        node1 moves to 900; the overwritten NodeSLO is repaired; the restart re-reads the (unparsable)
+        section and falls back to the default 1000 *)
+     map (fun o => (lookup [1] (sec_of 0 2 o), lookup [1] (sec_of 1 2 o))) (run faithful (decode example_events))
+     = [(Some 1000, Some 1000); (Some 900, Some 700); (Some 900, Some 700); (Some 900, Some 900);
+        (Some 900, Some 900); (Some 1000, Some 1000)]
+  /\ (* system section: node0 gets its annotation's 5000 as bandwidth, node1's section is withheld *)
+     map (fun o => (lookup [7] (sec_of 0 3 o), sec_of 1 3 o)) (run faithful (decode example_events))
+     = repeat (Some 5000, Obj None) 6.
+Proof. vm_compute. repeat split; reflexivity. Qed.
+
 (* ---------- departure 1: an always-marshalled scalar is reset by a layer that omits it ---------- *)
 Definition witness_bandwidth : list Z :=
-  dflt_wire ++ [1; 1;0;0] ++ [1;
+  dflt_wire ++ [1; 1;1;0;0; 0;0;0] ++ [0; 1;
     0; 5; 0;0; 0;0; 0;0;
-          3;0; 3;8; 0;0;0;0;0; 5;0; 0; 7;1000;
+          3;0; 0;0; 3;8; 0;0;0;0;0; 5;0; 0; 7;1000;
                1; 1;0; 3;8; 1;200; 0;0;0;0; 5;0; 0; 6;
           0;0].
 
@@ -70,8 +107,8 @@ Theorem bandwidth_reset_refuted :
   wf_input koord_schemas (decode witness_bandwidth) = true
   /\ prop_case witness_bandwidth (run_case witness_bandwidth) = 1
   /\ finding_sig witness_bandwidth (run_case witness_bandwidth) = 1
-  /\ map (lookup [7]) (map (fun o => nth 3 o (Obj None)) (run faithful (decode witness_bandwidth))) = [Some 0]
-  /\ map (lookup [7]) (map (fun o => nth 3 o (Obj None)) (spec_run ideal (decode witness_bandwidth))) = [Some 1000].
+  /\ map (lookup [7]) (map (sec_of 0 3) (run faithful (decode witness_bandwidth))) = [Some 0]
+  /\ map (lookup [7]) (map (sec_of 0 3) (spec_run ideal (decode witness_bandwidth))) = [Some 1000].
 Proof. vm_compute. auto. Qed.
 
 (* ---------- departure 2: a list set by the upper layer is decoded into the lower layer's list ---------- *)
@@ -80,9 +117,9 @@ Definition io_cfg (i : nat) (v : Z) : list Z :=
 Definition qos_with_block (b : list Z) : list Z :=
   [3;6; 2;2;2] ++ ([3;5; 2;2] ++ ([3;2; 0] ++ ([4;1] ++ b)) ++ [2;2]) ++ [2;2].
 Definition witness_blocks : list Z :=
-  dflt_wire ++ [1; 1;0;0] ++ [1;
+  dflt_wire ++ [1; 1;1;0;0; 0;0;0] ++ [0; 1;
     0; 5; 0;0;
-          3;0] ++ qos_with_block ([3;3; 1;1; 1;-13] ++ io_cfg 0 100) ++ [
+          3;0; 0;0] ++ qos_with_block ([3;3; 1;1; 1;-13] ++ io_cfg 0 100) ++ [
                1; 1;0] ++ qos_with_block ([3;3; 1;2; 0] ++ io_cfg 1 5) ++ [
           0;0; 0;0; 0;0].
 
@@ -95,11 +132,11 @@ Theorem blocks_merge_refuted :
   /\ finding_sig witness_blocks (run_case witness_blocks) = 2
   /\ (* the node's block is named s2 as the entry says, but carries type=device and readIOPS=100 of the cluster's block s1 *)
      map (fun o => option_map (map (fun b => (lookup [0] b, lookup [1] b, lookup [2;0] b, lookup [2;1] b)))
-                              (blocks_of (nth 1 o (Obj None))))
+                              (blocks_of (sec_of 0 1 o)))
          (run faithful (decode witness_blocks))
      = [Some [(Some 2, Some (-13), Some 100, Some 5)]]
   /\ map (fun o => option_map (map (fun b => (lookup [0] b, lookup [1] b, lookup [2;0] b, lookup [2;1] b)))
-                              (blocks_of (nth 1 o (Obj None))))
+                              (blocks_of (sec_of 0 1 o)))
          (spec_run ideal (decode witness_blocks))
      = [Some [(Some 2, None, None, Some 5)]].
 Proof. vm_compute. auto. Qed.
